@@ -1,10 +1,10 @@
 #!/usr/bin/env python3
 """Confirm a seeded mutant in a scratch worktree of /repo and file it under /verif/seeded/<name>/.
-usage: confirm_mutant.py <ID> <n> [check ids...]   (reads /tmp/seed/<ID>/mutant<n>.diff, demo<n>.py, meta<n>.json)"""
+usage: confirm_mutant.py <ID> <n> [check ids...]   (reads $SEED_DIR/<ID>/mutant<n>.diff, demo<n>.py, meta<n>.json; SEED_DIR defaults to /tmp/seed; stored as <ID>-m<n+SEED_OFFSET>)"""
 import json, os, shutil, subprocess, sys
 pid, n = sys.argv[1], sys.argv[2]
 checks = sys.argv[3:] or [pid]
-src = f"/tmp/seed/{pid}"
+src = os.path.join(os.environ.get("SEED_DIR", "/tmp/seed"), pid)
 VERIF = os.path.dirname(os.path.dirname(os.path.abspath(__file__)))
 WT = os.environ.get("MUT_WT", "/tmp/mywt")
 def sh(cmd, cwd=None, env=None):
@@ -25,7 +25,7 @@ for c in checks:
 sh(f"git -C {WT} reset -q --hard HEAD")
 sh("/venv/bin/python harness/translate.py", cwd=VERIF)
 ok = rc_clean == 0 and rc_mut != 0 and "256 passed" in tests and "17 failed" in tests
-name = f"{pid}-m{n}"
+name = f"{pid}-m{int(n) + int(os.environ.get('SEED_OFFSET', '0'))}"
 meta = json.load(open(f"{src}/meta{n}.json"))
 caught = {c: any("VIOLATION" in l for l in ls) for c, ls in results.items()}
 meta.update({"id": name, "breaks_property": pid, "repo_head": head[:7],
